@@ -28,7 +28,7 @@ Definition f_algorithms_core_core_periphery_dir : cmd :=
   (Seq (GetRng "rng" ESeed)
   (Seq (Choice (DrawLocal "rng")
       Skip)
-    (Loop (Choice (Loop DrawNpGlobal)
+    (Loop (Choice (Loop (DrawLocal "rng"))
         Skip)))).
 Definition f_algorithms_generative_evaluate_generative_model : cmd :=
   (Seq (Call "algorithms.clustering.clustering_coef_bu" ENone)
